@@ -196,6 +196,7 @@ structure E2eState where
   ctlSsl : Option Nat := none
   ctlCtx : Option String := none
   protectedSession : Bool := false     -- AUTH TLS accepted and handshake done in the current connection
+  serverGone : Bool := false           -- the server has dropped the current control connection
 
 /-- C11 / C18 monitors on the tokens of one operation -/
 def monitorE2e (cfg : E2eCfg) (st : E2eState) (op : SOp) (seg : List String) : Option String :=
@@ -252,6 +253,81 @@ def monitorE2e (cfg : E2eCfg) (st : E2eState) (op : SOp) (seg : List String) : O
           -- secrets never in the clear
           (if raws.any (fun r => (secretsOf op).any fun s => hexContains r.bytes s) then some "secret-visible-on-the-wire" else none)
   else if cfg.prop = "C11" then none
+  else if cfg.prop = "C10" || cfg.prop = "C02" || cfg.prop = "C07" then
+    let stTok := ((seg.find? fun t => t.startsWith "st:").getD "").splitOn ":"
+    let generated := gen.map fun (c, t) => s!"{c}:{hexOfBytes t}"
+    let retItems : Option (List String) := match ret.splitOn ":" with
+      | "ret" :: "replies" :: _ :: rest => some (splitComma (":".intercalate rest))
+      | "ret" :: "list" :: _ :: rest => some (splitComma (":".intercalate rest.dropLast))
+      | ["ret", "reply", c, h] => some [s!"{c}:{h}"]
+      | ["ret", "opt", "none"] => some []
+      | ["ret", "opt", c, h] => some [s!"{c}:{h}"]
+      | _ => none
+    let sent : List Bytes := seg.filterMap fun t => if t.startsWith "o0:q:" then bytesOfHex (t.drop 5).toString else none
+    let hsOk := seg.any fun t => match t.splitOn ":" with | ["hs", _, "1"] => true | _ => false
+    let settings : Spec.Settings := { passive := st.w.base.mode == .passive, rfc2428 := st.w.base.rfc, asciiType := st.w.base.ttype == .ascii, v6 := st.w.base.v6 }
+    let codes := gen.map (·.1)
+    let noCtl := op.name = "isconn" || (op.name = "disc" && op.args.getD 0 "" != "1")
+    if cfg.prop = "C10" then
+      let h (i : Nat) := bytesOfHex (op.args.getD i "")
+      let want : Option (List Bytes) :=
+        if op.name = "connect" then
+          let cred := if op.args.length ≥ 4 then (match h 2, h 3 with | some u, some p => some (u, p) | _, _ => none) else none
+          some (if cfg.tls then Spec.connectLinesTls settings cred codes hsOk else Spec.expectedLines settings (.connect cred) codes [])
+        else if op.name = "login" then
+          (match h 0, h 1 with
+           | some u, some p => some (if cfg.tls then Spec.loginLinesTls settings u p codes else Spec.loginLines settings u p codes)
+           | _, _ => none)
+        else (refCall op).map fun call => Spec.expectedLines settings call codes (sent.headD [])
+      match want with
+      | none => none
+      | some w =>
+        if returned && sent != w then some "commands-differ-from-reference"
+        else if !returned && sent != w.take sent.length then some "commands-differ-from-reference"
+        else if returned && !noCtl && retItems != some generated then some "not-every-reply-returned"
+        else none
+    else if cfg.prop = "C02" then
+      (if returned && !noCtl && retItems != some generated then some "returned-replies-are-not-the-replies-to-this-call" else none)
+    else
+      -- C07: a refused transfer returns its replies (negative overall), moves nothing, leaks nothing
+      if op.name != "get" && op.name != "put" && op.name != "list" then none
+      else
+        let refused := (gen.take 2).any fun (c, _) => c ≥ 400 && c != 421
+        if !refused then none
+        else if !returned then some "refused-transfer-threw"
+        else if retItems != some generated then some "refused-transfer-replies-differ"
+        else if (ret.splitOn ":").getD 2 "1" != "0" then some "refused-transfer-reported-positive"
+        else if stTok.getD 2 "1" != "1" then some "refused-transfer-left-descriptor"
+        else if (((seg.find? fun t => t.startsWith "sink:").map fun t => (t.splitOn ":").getD 1 "0").getD "0") != "0" then some "refused-transfer-moved-data"
+        else none
+  else if cfg.prop = "C03" || cfg.prop = "C04" then
+    let payload := op.groups.findSome? fun g => match g.act with | some (.send p) => some p | _ => none
+    let positive := (ret.splitOn ":").getD 2 "0" = "1"
+    if !returned || !positive || op.groups.any (·.truncate) then none
+    else if cfg.prop = "C03" && op.name = "get" then
+      (match payload, (seg.find? fun t => t.startsWith "sink:") with
+       | some p, some sk =>
+         let f := sk.splitOn ":"
+         let want := if st.w.base.ttype == .ascii then Spec.dlSpec p else p
+         if f.getD 1 "" != toString want.length || f.getD 2 "" != toString (fnv64 want).toNat then some "download-bytes-differ"
+         else if f.getD 3 "" != "1" then some "flush-count" else none
+       | _, _ => none)
+    else if cfg.prop = "C03" && op.name = "list" then
+      (match payload with
+       | some p =>
+         let want := if st.w.base.ttype == .ascii then Spec.dlSpec p else p
+         if ((ret.splitOn ":").getLast?.getD "") != hexOfBytes want then some "listing-text-differs" else none
+       | none => none)
+    else if cfg.prop = "C04" && op.name = "put" then
+      (match parsePayload (op.args.getD 2 ""), (seg.find? fun t => t.startsWith "peer:") with
+       | some data, some pk =>
+         let f := pk.splitOn ":"
+         let want := if st.w.base.ttype == .ascii then Spec.ulSpec data else data
+         -- peer:<connected>:<sent>:<recvlen>:<fnv>:<eof>:<err>:<tls_ok>:<reused>
+         if f.getD 3 "" != toString want.length || f.getD 4 "" != toString (fnv64 want).toNat then some "upload-bytes-differ"
+         else if f.getD 5 "" != "1" then some "peer-saw-no-end-of-file" else none
+       | _, _ => none)
+    else none
   else if cfg.prop = "C13" then
     let stTok := ((seg.find? fun t => t.startsWith "st:").getD "").splitOn ":"
     let conn := stTok.getD 1 "0" = "1"
@@ -318,7 +394,9 @@ def e2eOp (args : List String) (impl : String) : Option Verdict := do
         let ctx := seg.findSome? fun t => match t.splitOn ":" with | ["sn", _, c] => some c | _ => none
         st := { st with ctlFd := fd, ctlSsl := ssl, ctlCtx := ctx, protectedSession := false }
       let seg' := seg.filter fun t => !isSummary t || t.startsWith "played:"
-      match runE2eOp st.w { op with groups := op.groups } (seg.map id) with
+      let nPlayed := (seg.filter fun t => t.startsWith "o0:q:").length + (if op.name = "connect" then 1 else 0)
+      let goneNow := st.serverGone || ((op.groups.take nPlayed).any (·.closes))
+      match runE2eOp { st.w with peerAnswersCloseNotify := !goneNow } { op with groups := op.groups } (seg.map id) with
       | none => failure
       | some (model, w') =>
         -- truncated TLS stream: the model's data script ends in an error
@@ -329,7 +407,7 @@ def e2eOp (args : List String) (impl : String) : Option Verdict := do
         if viol.isNone then viol := monitorE2e cfg st op seg
         let prot := if op.name = "connect" then seg.contains s!"hs:{st.ctlSsl.getD 0}:1" else
                     if op.name = "disc" || op.name = "logout" then false else st.protectedSession
-        st := { st with w := w', protectedSession := prot }
+        st := { st with w := w', protectedSession := prot, serverGone := if op.name = "connect" then ((op.groups.take nPlayed).any (·.closes)) else goneNow }
       k := k + 1
     let names := ops.map (·.name)
     let tags := (if cfg.tls then ["tls"] else ["plain"]) ++ (if names.contains "get" then ["get"] else []) ++
